@@ -6,6 +6,7 @@ package interp
 
 import (
 	"fmt"
+	"os"
 	"sort"
 	"strings"
 	"sync"
@@ -83,6 +84,41 @@ type pathState struct {
 	ghostSample map[string]string
 	replayHarness string
 	replayParams  map[string]int64
+	ev         *evaluator        // current model of the path condition (nil = none)
+	initModel  map[string]uint64 // model handed over with the prefix (by input name)
+	pendingModels []map[string]uint64
+}
+
+// modelTerms returns the variables a model must cover.
+func (ps *pathState) modelVars() []*Term {
+	return ps.pool.vars
+}
+
+// adopt installs the solver's values for vars as the current model.
+func (ps *pathState) adopt(vars []*Term, vals []uint64) {
+	m := make(map[*Term]uint64, len(vars))
+	for i, v := range vars {
+		m[v] = vals[i]
+	}
+	if ps.ev == nil {
+		ps.ev = newEvaluator()
+	}
+	ps.ev.reset(m)
+}
+
+func namedModel(vars []*Term, vals []uint64) map[string]uint64 {
+	m := make(map[string]uint64, len(vars))
+	for i, v := range vars {
+		if vals[i] != 0 {
+			m[v.name] = vals[i]
+		}
+	}
+	return m
+}
+
+// holds reports whether the current model satisfies t (false if no model).
+func (ps *pathState) holds(t *Term) bool {
+	return ps.ev != nil && ps.ev.eval(t) != 0
 }
 
 func (ps *pathState) assertTerm(t *Term) {
@@ -93,10 +129,15 @@ func (ps *pathState) assertTerm(t *Term) {
 		return
 	}
 	ps.known[t] = true
-	if t.op == "not" {
-		// nothing: known-false lookups go through Not()
+	if ps.ev != nil && ps.ev.eval(t) == 0 {
+		ps.ev = nil // the model no longer satisfies the path condition
 	}
 	ps.solver.Assert(t)
+}
+
+func (ps *pathState) addPending(d []Decision, model map[string]uint64) {
+	ps.pending = append(ps.pending, d)
+	ps.pendingModels = append(ps.pendingModels, model)
 }
 
 func (ps *pathState) cloneTrace(extra Decision) []Decision {
@@ -133,25 +174,68 @@ func (ps *pathState) branch(c *Term) bool {
 		return false
 	}
 	ps.nSolverDecisions++
-	rT := ps.solver.CheckWith(c)
+	vars := ps.modelVars()
+	if ps.ev != nil {
+		// the current model decides one side for free; one query for the other
+		side := ps.ev.eval(c) != 0
+		other := nc
+		if !side {
+			other = c
+		}
+		r, vals := ps.solver.CheckModel([]*Term{other}, vars)
+		if r == resUnknown {
+			ps.inconclusive = append(ps.inconclusive, "solver unknown on branch feasibility: "+ps.solver.lastErr)
+		}
+		if r != resUnsat {
+			var nm map[string]uint64
+			if r == resSat {
+				nm = namedModel(vars, vals)
+			}
+			v := int64(1)
+			if side {
+				v = 0
+			}
+			ps.addPending(ps.cloneTrace(Decision{K: dBranch, V: v}), nm)
+		}
+		if side {
+			ps.trace = append(ps.trace, Decision{K: dBranch, V: 1})
+			ps.assertTerm(c)
+			return true
+		}
+		ps.trace = append(ps.trace, Decision{K: dBranch, V: 0})
+		ps.assertTerm(nc)
+		return false
+	}
+	rT, valsT := ps.solver.CheckModel([]*Term{c}, vars)
 	var rF satResult
+	var valsF []uint64
 	if rT == resUnsat {
 		// the path condition itself is satisfiable (invariant), so !c is feasible
 		rF = resSat
 	} else {
-		rF = ps.solver.CheckWith(nc)
+		rF, valsF = ps.solver.CheckModel([]*Term{nc}, vars)
 	}
 	if rT == resUnknown || rF == resUnknown {
 		ps.inconclusive = append(ps.inconclusive, "solver unknown on branch feasibility: "+ps.solver.lastErr)
 	}
 	switch {
 	case rT != resUnsat && rF != resUnsat:
-		ps.pending = append(ps.pending, ps.cloneTrace(Decision{K: dBranch, V: 0}))
+		var nm map[string]uint64
+		if rF == resSat && valsF != nil {
+			nm = namedModel(vars, valsF)
+		}
+		ps.addPending(ps.cloneTrace(Decision{K: dBranch, V: 0}), nm)
 		ps.trace = append(ps.trace, Decision{K: dBranch, V: 1})
+		if rT == resSat {
+			ps.adopt(vars, valsT)
+		}
 		ps.assertTerm(c)
 		return true
 	case rT != resUnsat:
 		ps.trace = append(ps.trace, Decision{K: dBranch, V: 1})
+		if rT == resSat {
+			ps.adopt(vars, valsT)
+		}
 		ps.assertTerm(c)
 		return true
 	case rF != resUnsat:
@@ -181,7 +265,7 @@ func (ps *pathState) choose(n int, what string) int {
 	}
 	ps.nChoice++
 	for k := n - 1; k >= 1; k-- {
-		ps.pending = append(ps.pending, ps.cloneTrace(Decision{K: dChoice, V: int64(k)}))
+		ps.addPending(ps.cloneTrace(Decision{K: dChoice, V: int64(k)}), nil)
 	}
 	ps.trace = append(ps.trace, Decision{K: dChoice, V: 0})
 	return 0
@@ -214,20 +298,28 @@ func (ps *pathState) concretize(t *Term, what string) uint64 {
 		extra = append(extra, ps.pool.Not(ps.pool.Eq(t, ps.constLike(t, uint64(e)))))
 	}
 	ps.nSolverDecisions++
-	r, vals := ps.solver.CheckModel(extra, []*Term{t})
-	switch r {
-	case resUnsat:
-		panic(abortPath{"infeasible", "no further value"})
-	case resUnknown:
-		ps.inconclusive = append(ps.inconclusive, "solver unknown while concretising "+what)
-		panic(abortPath{"unsupported", "solver unknown while concretising " + what})
+	var v int64
+	if ps.ev != nil && len(excl) == 0 {
+		// the current model already names a feasible value
+		v = int64(ps.ev.eval(t))
+	} else {
+		vars := ps.modelVars()
+		r, vals := ps.solver.CheckModel(extra, append([]*Term{t}, vars...))
+		switch r {
+		case resUnsat:
+			panic(abortPath{"infeasible", "no further value"})
+		case resUnknown:
+			ps.inconclusive = append(ps.inconclusive, "solver unknown while concretising "+what)
+			panic(abortPath{"unsupported", "solver unknown while concretising " + what})
+		}
+		v = int64(vals[0])
+		ps.adopt(vars, vals[1:])
 	}
-	v := int64(vals[0])
 	nexcl := append(append([]int64{}, excl...), v)
 	// look ahead: queue the sibling only if another value exists
 	extra = append(extra, ps.pool.Not(ps.pool.Eq(t, ps.constLike(t, uint64(v)))))
 	if ps.solver.CheckWith(extra...) != resUnsat {
-		ps.pending = append(ps.pending, ps.cloneTrace(Decision{K: dValue, Open: true, Excl: nexcl}))
+		ps.addPending(ps.cloneTrace(Decision{K: dValue, Open: true, Excl: nexcl}), nil)
 	}
 	ps.trace = append(ps.trace, Decision{K: dValue, V: v})
 	ps.assertTerm(ps.pool.Eq(t, ps.constLike(t, uint64(v))))
@@ -388,12 +480,17 @@ type Result struct {
 	chains       map[string]string
 }
 
+type queued struct {
+	dec   []Decision
+	model map[string]uint64
+}
+
 type Explorer struct {
 	cfg   Config
 	world *World
 	mu    sync.Mutex
 	cond  *sync.Cond
-	queue [][]Decision
+	queue []queued
 	active int
 	res   Result
 	stop  bool
@@ -429,9 +526,26 @@ func (w *World) Explore(cfg Config) *Result {
 	ex.res.Stubs = map[string]int64{}
 	t0 := time.Now()
 	if cfg.ReplayDecisions != nil {
-		ex.queue = [][]Decision{cfg.ReplayDecisions}
+		ex.queue = []queued{{dec: cfg.ReplayDecisions}}
 	} else {
-		ex.queue = [][]Decision{nil}
+		ex.queue = []queued{{}}
+	}
+	stopProgress := make(chan struct{})
+	if os.Getenv("VERIF_PROGRESS") != "" {
+		go func() {
+			tk := time.NewTicker(10 * time.Second)
+			defer tk.Stop()
+			for {
+				select {
+				case <-stopProgress:
+					return
+				case <-tk.C:
+					ex.mu.Lock()
+					fmt.Fprintf(os.Stderr, "  progress: paths=%d queued=%d violations=%d unsupported=%d t=%.0fs\n", ex.res.Paths, len(ex.queue), len(ex.res.Violations), len(ex.res.Unsupported), time.Since(t0).Seconds())
+					ex.mu.Unlock()
+				}
+			}
+		}()
 	}
 	var wg sync.WaitGroup
 	for k := 0; k < cfg.Workers; k++ {
@@ -442,6 +556,7 @@ func (w *World) Explore(cfg Config) *Result {
 		}(k)
 	}
 	wg.Wait()
+	close(stopProgress)
 	ex.res.Wall = time.Since(t0)
 	ex.res.Exhaustive = !ex.stop && len(ex.queue) == 0 && len(ex.res.Unsupported) == 0 && len(ex.res.Budget) == 0 && len(ex.res.Inconclusive) == 0
 	return &ex.res
@@ -473,13 +588,19 @@ func (ex *Explorer) worker(k int) {
 		ex.active++
 		ex.mu.Unlock()
 
-		pr := ex.world.runPath(ex, solver, prefix)
+		pr := ex.world.runPath(ex, solver, prefix.dec, prefix.model)
 
 		ex.mu.Lock()
 		ex.active--
 		ex.merge(pr)
 		if ex.cfg.ReplayDecisions == nil {
-			ex.queue = append(ex.queue, pr.pending...)
+			for k, d := range pr.pending {
+				var m map[string]uint64
+				if k < len(pr.pendingModels) {
+					m = pr.pendingModels[k]
+				}
+				ex.queue = append(ex.queue, queued{dec: d, model: m})
+			}
 		}
 		if ex.cfg.MaxPaths > 0 && ex.res.Paths >= ex.cfg.MaxPaths && len(ex.queue) > 0 {
 			ex.res.Budget[fmt.Sprintf("path budget %d reached with %d prefixes queued", ex.cfg.MaxPaths, len(ex.queue))]++
@@ -509,6 +630,7 @@ type pathResult struct {
 	reason  string
 	ps      *pathState
 	pending [][]Decision
+	pendingModels []map[string]uint64
 	funcs   map[string]bool
 	stubs   map[string]int64
 	steps   int64
@@ -599,8 +721,8 @@ func sortedKeys[V any](m map[string]V) []string {
 
 func (r *Result) Summary() string {
 	var sb strings.Builder
-	fmt.Fprintf(&sb, "paths=%d completed=%d infeasible=%d assumed-away=%d solver-decisions=%d choices=%d queries=%d solver=%.1fs obligations=%d discharged=%d violations=%d wall=%.1fs exhaustive=%v",
-		r.Paths, r.Completed, r.Infeasible, r.Assumed, r.Decisions, r.Choices, r.Queries, r.SolverTime.Seconds(), r.Obligations, r.Discharged, len(r.Violations), r.Wall.Seconds(), r.Exhaustive)
+	fmt.Fprintf(&sb, "paths=%d completed=%d infeasible=%d assumed-away=%d solver-decisions=%d choices=%d queries=%d solver=%.1fs obligations=%d discharged=%d violations=%d wall=%.1fs exhaustive=%v instr=%d",
+		r.Paths, r.Completed, r.Infeasible, r.Assumed, r.Decisions, r.Choices, r.Queries, r.SolverTime.Seconds(), r.Obligations, r.Discharged, len(r.Violations), r.Wall.Seconds(), r.Exhaustive, r.Steps)
 	for _, k := range sortedKeys(r.Unsupported) {
 		fmt.Fprintf(&sb, "\n  UNSUPPORTED x%d: %s", r.Unsupported[k], k)
 	}
